@@ -27,7 +27,7 @@ pub fn prop() -> Prop {
                as a user may write them (plain needs a documented word on both ends), a scripted peer superseded by a new one on the same address x age x node id x \
                lateness (old session dropped, new session carries payload); (c) router and \
                switch 3-node meshes: every wire datagram x {bit flips, truncations, reflection, injection into each of the 6 ordered connections}: no interface write, \
-               no state change, and the capture contains no 8-byte window of any payload or claim. non-trivial = altered sealed datagram that reached the AEAD open",
+               no state change, and the capture contains no 8-byte window of any payload or claim. Plus 13/22-node switch meshes (one interface read sealed for many peers: byte-identical delivery). non-trivial = altered sealed datagram that reached the AEAD open",
         run,
         replay,
     }
